@@ -171,6 +171,9 @@ func c10Programs(c *Check) []*Program {
 		def("w", il(0)),
 		For{Kind: ForCond, Cond: cmp("<", vr("w"), il(3)), Body: []Stmt{IncDec{"w", true}, ifs(cmp("==", vr("w"), il(2)), Continue{}), pr(vr("w"))}},
 		VarDecl{Names: []string{"grown"}, Type: TSliceBool}, SliceSet{"grown", il(2), bl(true)}, pr(Len{vr("grown")}, Index{"grown", il(0)}, Index{"grown", il(2)}),
+		// globals as operands of the slice helpers at top level (copy destination and source, element store, range)
+		VarDecl{Names: []string{"mirror"}, Type: TSliceString}, def("moved", Copy{"mirror", vr("names")}), SliceSet{"mirror", Len{vr("mirror")}, sl("tail")},
+		For{Kind: ForRange, RangeIdx: "at", RangeVal: "entry", Over: vr("mirror"), Body: []Stmt{pr(vr("at"), vr("entry"))}}, pr(vr("moved"), Len{vr("mirror")}, Len{vr("names")}),
 	})
 	p3 := SingleFile([]Stmt{
 		fn("countc", []Param{{"text", TString}, {"want", TString}}, []Type{TInt},
@@ -406,6 +409,17 @@ func checkC10(c *Check) {
 				for o := range b.own {
 					if len(o) >= 2 && strings.Contains(to, o) && to != o && harvest[to] != "fresh-control" {
 						derived = true
+					}
+				}
+				// very short words of the emitted scripts (loop counters and scratch names of helpers such as i, n, c, l)
+				// are tried on every unmangled identifier of the role, not on one
+				short := len(to) <= 2 && (harvest[to] == "bash-script-word" || harvest[to] == "batch-script-word") && (role == "global" || role == "func" || role == "lib-global")
+				if short {
+					for _, f2 := range cands {
+						if f2 != from {
+							classCount[cl+"(short, all-candidates)"]++
+							jobs = append(jobs, job{bi, role, f2, to, cl})
+						}
 					}
 				}
 				if derived || cl == "near-miss" {
